@@ -103,6 +103,8 @@ func VerifC06Att() {
 		slot, comm uint64
 		resp       chan *eth2p0.AttestationData
 		done       bool
+		cancelled  bool
+		cancelCh   chan struct{}
 	}
 	var qs []*q
 	pendingExpire := uint64(0) // slot whose expiry is queued on the deadliner channel (0 = none)
@@ -115,9 +117,18 @@ func VerifC06Att() {
 	var offered []vAtt
 	var ansHas [3][3]bool
 	var ans [3][3]vAtt
+	cmask := vrt.Param("cancel") // bit i: the query registered by operation i is cancelled right after registering
 	checkQueries := func(successfulStore bool, sa, sb vAtt) {
 		for _, x := range qs {
 			if x.done {
+				continue
+			}
+			if x.cancelled {
+				select {
+				case <-x.resp:
+					x.done = true
+				default:
+				}
 				continue
 			}
 			select {
@@ -154,6 +165,12 @@ func VerifC06Att() {
 		ops /= 3
 		switch op {
 		case opStore:
+			for _, x := range qs {
+				if x.cancelCh != nil && !x.cancelled {
+					close(x.cancelCh) // AwaitAttestation closes its cancel channel when it returns
+					x.cancelled = true
+				}
+			}
 			a := vDrawAtt(vrt.N("a", i))
 			b := vDrawAtt(vrt.N("b", i))
 			vrt.Assume(a.slot == b.slot) // one duty = one slot
@@ -197,12 +214,16 @@ func VerifC06Att() {
 			x := &q{slot: uint64(vrt.Byte(vrt.N("qslot", i))), comm: uint64(vrt.Byte(vrt.N("qcomm", i))), resp: make(chan *eth2p0.AttestationData, 1)}
 			vrt.Assume(x.slot >= 1 && x.slot <= 2 && x.comm <= 2)
 			// AwaitAttestation's critical section
+			cancel := make(chan struct{})
 			db.mu.Lock()
-			db.attQueries = append(db.attQueries, attQuery{Key: attKey{Slot: x.slot, CommIdx: x.comm}, Response: x.resp, Cancel: make(chan struct{})})
+			db.attQueries = append(db.attQueries, attQuery{Key: attKey{Slot: x.slot, CommIdx: x.comm}, Response: x.resp, Cancel: cancel})
 			db.resolveAttQueriesUnsafe()
 			db.mu.Unlock()
 			qs = append(qs, x)
 			checkQueries(true, vAtt{}, vAtt{})
+			if (cmask>>i)&1 == 1 {
+				x.cancelCh = cancel // this caller gives up (its context ends) just before the next Store
+			}
 		case opExpire:
 			s := uint64(vrt.Byte(vrt.N("xslot", i)))
 			vrt.Assume(s >= 1 && s <= 2 && pendingExpire == 0)
@@ -294,5 +315,50 @@ func VerifC06Await() {
 	b := vDrawAtt("b")
 	errb := db.Store(ctx, core.Duty{Slot: b.slot, Type: core.DutyAttester}, core.UnsignedDataSet{vPkB: b.data()})
 	vrt.Assert("data for an expired duty is refused", errb != nil)
+	vrt.Reach("end")
+}
+
+func init() { VerifHarnesses["VerifC06Expiry"] = VerifC06Expiry }
+
+// vExpDeadliner: a deadliner that knows which slots have expired: Add refuses them; expiries are emitted on C().
+type vExpDeadliner struct {
+	expired [4]bool
+	ch      chan core.Duty
+}
+
+func (d *vExpDeadliner) Add(duty core.Duty) core.DeadlineStatus {
+	if duty.Slot < 4 && d.expired[duty.Slot] {
+		return core.DeadlineExpired
+	}
+	return core.DeadlineScheduled
+}
+func (d *vExpDeadliner) C() <-chan core.Duty { return d.ch }
+
+// VerifC06Expiry: Store(X) overlaps with the expiry of X's duty and another thread's Store(Y), which drains the expiry:
+// the other thread's part runs, whole, at a lock boundary of Store(X) (vrt.Interfere). Whatever the schedule, data of an
+// expired duty is not served afterwards (either refused, or stored and then trimmed).
+func VerifC06Expiry() {
+	dl := &vExpDeadliner{ch: make(chan core.Duty, 2)}
+	db := NewMemDB(dl)
+	ctx := context.Background()
+	x := vDrawAtt("x")
+	y := vDrawAtt("y")
+	vrt.Assume(x.slot != y.slot)
+	vrt.Interfere(func() {
+		// slot x expires; another component's Store (for slot y) runs and drains the expiry
+		dl.expired[x.slot] = true
+		dl.ch <- core.Duty{Slot: x.slot, Type: core.DutyAttester}
+		errY := db.Store(ctx, core.Duty{Slot: y.slot, Type: core.DutyAttester}, core.UnsignedDataSet{vPkB: y.data()})
+		vrt.Assert("store of the live duty succeeds", errY == nil)
+	})
+	errX := db.Store(ctx, core.Duty{Slot: x.slot, Type: core.DutyAttester}, core.UnsignedDataSet{vPkA: x.data()})
+	vrt.Assume(vrt.InterfererRan())
+	// a later store of the live duty gives the store the chance to trim whatever the deadliner emitted
+	errY2 := db.Store(ctx, core.Duty{Slot: y.slot, Type: core.DutyAttester}, core.UnsignedDataSet{vPkB: y.data()})
+	vrt.Assert("idempotent re-store succeeds", errY2 == nil)
+	_, stillThere := db.attDuties[attKey{Slot: x.slot, CommIdx: x.comm}]
+	_, errPk := db.PubKeyByAttestation(ctx, x.slot, x.comm, x.val)
+	vrt.Assert("data of an expired duty is not kept once its expiry was processed", !stillThere && errPk != nil)
+	_ = errX
 	vrt.Reach("end")
 }
